@@ -193,6 +193,8 @@ class Builder:
             op["us"] = True
         if r.random() < p_override:
             op["n_inner"] = r.randint(1, 4)
+            if r.random() < 0.25:
+                op["n_inner_type"] = r.choice(["int64", "int32", "uint8"])
         if cls == "interval" and r.random() < 0.25:
             op["force"] = True
         if extra:
@@ -289,6 +291,8 @@ def gen_incremental(rng, cls, arith, storages, imputers, shared=None):
             e["alpha"] = a
     if rng.random() < 0.7:
         e["n_inner"] = wchoice(rng, [(1, 35), (2, 30), (3, 20), (4, 15)])
+        if rng.random() < 0.12:
+            e["n_inner_type"] = rng.choice(["int64", "int16"])
     if cls == "sage" and rng.random() < 0.45:
         e["lbib"] = rng.random() < 0.65
     if rng.random() < 0.2:
